@@ -138,11 +138,21 @@ class GenesisCheck:
         os.makedirs(recdir, exist_ok=True)
         jobs = [(r, r["n"][tier] if isinstance(r["n"], dict) else r["n"]) for r in RECORDS]
         failed = []
+        built = {}
+        for r, _ in jobs:     # one build per binary (builds are serialised by a lock anyway)
+            if r["binary"] not in built:
+                try:
+                    vlib.build_harness(r["binary"])
+                    built[r["binary"]] = True
+                except Inconclusive as ex:
+                    built[r["binary"]] = False
+                    failed.append((r["binary"], str(ex)[-600:]))
 
         def one(job):
             r, n = job
+            if not built.get(r["binary"]):
+                return r["binary"]
             try:
-                vlib.build_harness(r["binary"])
                 out = os.path.join(work, f"rectrace-{r['binary']}-{abs(hash(r.get('cfg','') + r.get('in','')))%99999}.ndjson")
                 env = dict(os.environ, VERIF_RECORD_DIR=recdir)
                 cmd = [vlib.harness_bin(r["binary"]), r.get("mode", "random"), "-out", out, "-seed", str(seed * 31 + 7),
@@ -260,11 +270,13 @@ class GenesisCheck:
                        "(GenesisTrace.tla)."}
         mc = {"states": 0, "transitions": 0, "configs": []}
         defects = {}
+        # the model runs (exhaustive check + planted-defect self-test) proceed in the
+        # background while the histories are recorded and round-tripped
+        mcex = ThreadPoolExecutor(max_workers=2)
+        f_mc = f_st = None
         if not skip_mc:
-            with ThreadPoolExecutor(max_workers=2) as ex:
-                f1 = ex.submit(self.run_mc, tier, work)
-                f2 = ex.submit(self.self_test, work)
-                mc, defects = f1.result(), f2.result()
+            f_mc = mcex.submit(self.run_mc, tier, work)
+            f_st = mcex.submit(self.self_test, work)
         t1 = time.time()
         recs, failed = self.record(tier, work, seed)
         t2 = time.time()
@@ -303,7 +315,13 @@ class GenesisCheck:
         ntr = vlib.count_traces(allf)
         res, viol, hits = self.judge(pid, allf, work)
         t4 = time.time()
-        log(f"[time] mc {t1-t0:.0f}s, record {t2-t1:.0f}s, round trips {t3-t2:.0f}s, trace validation {t4-t3:.0f}s")
+        try:
+            if f_mc is not None:
+                mc, defects = f_mc.result(), f_st.result()
+        finally:
+            mcex.shutdown(wait=True)
+        log(f"[time] record {t2-t1:.0f}s, round trips {t3-t2:.0f}s, trace validation {t4-t3:.0f}s, "
+            f"model checking (in parallel) done after {time.time()-t0:.0f}s")
         ex_ = res["exercised"]
         nrt = ex_.get("asis", 0) + ex_.get("zeroheight", 0)
         log(f"[trace] {ntr} histories ({len(recs)} recorded + {len(names)} scenarios) / {res['lines']} events validated; "
